@@ -13,7 +13,12 @@ Read from `Juniper.Gen.Merge` (regenerated from `stream/stream.go` on every run)
 of the goroutine and their order, the `nDone`/`closeOnce` test of the last goroutine and its
 `sender.Close(nil)`, the statements run by the CAS winner, which context `Next`/`Send` are given,
 the arms of `PipeSender.Send` and `pipeStream.Next`, the statements of `mergeStream.Close` and of
-its `cancel` closure, `sender.Close(nil)` on zero inputs, `wg.Add(len(in))`.
+its `cancel` closure, `sender.Close(nil)` on zero inputs, `wg.Add(len(in))`, and **where the context
+handed to the inputs and to `Send` comes from** (`ctxOrigin`: the right-hand side of `ctx, cancel := …` and
+every occurrence of `ctx` and `cancel` in `Merge`). Only when that context is
+`context.WithCancel(context.Background())` and `cancel` occurs nowhere but in the two modelled calls is
+"the context ends only through `cancel()`" true; otherwise the environment label `ctxEnds` (its deadline
+passes, its parent is cancelled, somebody else calls `cancel`) is enabled and the model follows the code.
 -/
 namespace Juniper.Model.StreamMerge
 open Juniper.Facts
@@ -75,6 +80,31 @@ def senderCloseCloses : Bool := Gen.Merge.pipeSenderCloseStmts.contains "close(s
 def wgInit (k : Nat) : Nat := if Gen.Merge.smWgAdd == "len(in)" then k else 0
 def casGuards : Bool := Gen.Merge.smCasCond == "atomic.CompareAndSwapUint32(&closeOnce,0,1)"
 
+/-- Where the context handed to `in[i].Next` and `sender.Send` comes from. -/
+inductive CtxOrigin
+  | plainCancel         -- `context.WithCancel(context.Background())`, `cancel` used only where the LTS calls it
+  | deadline            -- `context.WithTimeout` / `context.WithDeadline`: ends when time passes
+  | derivedFromCaller   -- `context.WithCancel(<something other than Background()>)`: ends with its parent
+  | other               -- anything else (another constructor, a further use of `cancel` or `ctx`)
+  deriving DecidableEq, Repr, Hashable
+
+/-- Classification of the regenerated texts. `cancel` must occur exactly twice, as the call `cancel()` (the
+positions of the two calls are `smWinStmts` and `smCancelStmts`: the CAS winner's statements and the closure
+run by `Close`), and `ctx` exactly as the argument of `in[i].Next` and of `sender.Send`: then nobody but those
+two calls can end the context, it has no deadline, and no parent that could end. -/
+def ctxOriginOf (rhs ctor _parent : String) (cancelUses ctxUses : List String) : CtxOrigin :=
+  if rhs == "context.WithCancel(context.Background())" then
+    (if cancelUses == ["cancel()", "cancel()"] && ctxUses == ["in[i].Next(ctx)", "sender.Send(ctx,item)"]
+      then .plainCancel else .other)
+  else if ctor == "context.WithTimeout" || ctor == "context.WithDeadline" then .deadline
+  else if ctor == "context.WithCancel" then .derivedFromCaller
+  else .other
+
+/-- the origin of `ctx` in the `stream.Merge` that was read on this run -/
+def ctxOrigin : CtxOrigin :=
+  ctxOriginOf Gen.Merge.smCtxRhs Gen.Merge.smCtxCtor Gen.Merge.smCtxParent Gen.Merge.smCtxCancelUses
+    Gen.Merge.smCtxCtxUses
+
 /-- ghost: why a goroutine left its loop -/
 inductive Why | ended | lostCas | wonCas | sendFailed
   deriving DecidableEq, Repr, Hashable
@@ -111,6 +141,7 @@ inductive Res (V : Type)
 
 structure St (V : Type) where
   k : Nat
+  origin : CtxOrigin           -- where `ctx` comes from (constant; `init` reads it from the generated facts)
   gs : List (G V)
   nDone : Nat := 0
   closeOnce : Bool := false
@@ -130,14 +161,21 @@ inductive Label (V : Type)
   -- inputs (environment): what a `Next` call in progress returns
   | inItem (i : Nat) (v : V) | inEnd (i : Nat) | inErr (i : Nat) (e : Nat)
   | inCtx (i : Nat)              -- the input honours the cancelled shared context
+  /-- environment: the context handed to the inputs ends although `cancel()` has not been called — its
+  deadline passes, its parent is cancelled, another holder of `cancel` calls it. Enabled iff the origin of
+  the context is not `plainCancel`. -/
+  | ctxEnds
   -- goroutine `i`
   | cas (i : Nat) | win (i : Nat) | sendOk (i : Nat) | sendFail (i : Nat) | exitStep (i : Nat)
   -- consumer of the merged stream
   | cCall (live : Bool) | cEnd | cCtx | cClose | cCloseStep
+  /-- environment: the context of the consumer's pending `Next` expires / is cancelled while the call is
+  in progress (`inNext true → inNext false`); from then on the `ctx.Done()` arm of that `Next` is ready -/
+  | cExpire
   deriving DecidableEq, Repr
 
 def init (V : Type) (k : Nat) : St V :=
-  { k := k, gs := List.replicate k {}, wg := wgInit k,
+  { k := k, origin := ctxOrigin, gs := List.replicate k {}, wg := wgInit k,
     senderCloses := if Gen.Merge.smZeroCond k && Gen.Merge.smZeroCloses then 1 else 0 }
 
 def setPc {V : Type} (s : St V) (i : Nat) (g : G V) (pc : GPc V) : St V :=
@@ -180,6 +218,8 @@ def step {V : Type} (s : St V) : Label V → Option (St V)
       | .next => if s.cancelled && nextUsesCtx then some (setPc s i g (.gotErr .ctx)) else none
       | _ => none
     | none => none
+  | .ctxEnds =>
+    if s.origin != .plainCancel && !s.cancelled then some { s with cancelled := true } else none
   | .cas i =>
     match s.gs[i]? with
     | some g => match g.pc with
@@ -245,6 +285,10 @@ def step {V : Type} (s : St V) : Label V → Option (St V)
         some { s with cpc := .idle,
                       results := s.results ++ [match s.senderErr with | none => .endd | some e => .err e] }
       else none
+    | _ => none
+  | .cExpire =>
+    match s.cpc with
+    | .inNext true => some { s with cpc := .inNext false }
     | _ => none
   | .cCtx =>
     match s.cpc with
